@@ -23,9 +23,65 @@ let split_on c s = List.map String.trim (String.split_on_char c s)
 let entries (s : string) : (string * string) list =
   List.filter_map (fun e -> if e = "" then None else
     match split_on '>' e with [k; v] -> Some (k, v) | _ -> None) (split_on ';' s)
+(* ---- end-to-end cases (C18Str.v): Unicode range tables as in the c02 driver ----
+     U <name> lo-hi lo-hi ...                  load a table (ws | num | alpha | ling); prints "U <name> <#ranges>"
+     STR | src cps | chars | canon | meta      make_title_case_str  -> "O cps" | "P" | "?"
+     TOK | src cps | meta                      Document::new_from_vec(.., PlainEnglish, dict).get_tokens()
+                                               -> "T s e kind meta ..." | "P" *)
+let tables : (string, (int * int) array) Hashtbl.t = Hashtbl.create 8
+let in_table name =
+  fun (c : n) ->
+    match Hashtbl.find_opt tables name with
+    | None -> false
+    | Some a ->
+        let x = int_of_n c in
+        let lo = ref 0 and hi = ref (Array.length a - 1) and found = ref false in
+        while not !found && !lo <= !hi do
+          let mid = (!lo + !hi) / 2 in
+          let (l, h) = a.(mid) in
+          if x < l then hi := mid - 1 else if x > h then lo := mid + 1 else found := true
+        done;
+        !found
+let uni_now () = { u_whitespace = in_table "ws"; u_numeric = in_table "num"; u_alphabetic = in_table "alpha"; u_lingual = in_table "ling" }
+let int_of_meta (m : wmeta option) : int =
+  match m with
+  | None -> 0
+  | Some md -> 1 + (if md.m_proper then 1 else 0) + (if md.m_prep then 2 else 0) + (if md.m_det then 4 else 0)
+let canon_of s = List.map (fun (k, v) ->
+  (text_of_line k,
+   if v = "-" then None
+   else Some (text_of_line (String.sub v 1 (String.length v - 1))))) (entries s)
+let meta_of s = List.map (fun (k, v) -> (text_of_line k, meta_of_int (int_of_string v))) (entries s)
+
 let () =
   iter_lines (fun l ->
+    if String.length l > 2 && l.[0] = 'U' && l.[1] = ' ' then
+      (match List.filter (fun w -> w <> "") (String.split_on_char ' ' (String.sub l 2 (String.length l - 2))) with
+       | name :: ranges ->
+           let a = Array.of_list (List.map (fun r ->
+               match String.split_on_char '-' r with
+               | [x; y] -> (int_of_string x, int_of_string y)
+               | _ -> failwith "bad range") ranges) in
+           Hashtbl.replace tables name a;
+           Printf.printf "U %s %d\n" name (Array.length a)
+       | [] -> print_endline "?")
+    else
     match split_bar l with
+    | ["STR"; src; chars; canon; meta] ->
+        let src = text_of_line src in
+        let chars = chars_of (ints_of_line chars) in
+        let canon = canon_of canon and meta = meta_of meta in
+        let u = uni_now () in
+        if run_str_missing_keys u chars canon meta src then print_endline "?"
+        else (match run_title_case_str u chars canon meta src with
+              | Panic _ -> print_endline "P"
+              | Ok t -> print_endline (String.trim ("O " ^ line_of_text t)))
+    | ["TOK"; src; meta] ->
+        (match run_document_tokens (uni_now ()) (meta_of meta) (text_of_line src) with
+         | Panic _ -> print_endline "P"
+         | Ok ts ->
+             print_endline (String.trim ("T " ^ String.concat " " (List.map (fun (((s, e), k), m) ->
+               Printf.sprintf "%d %d %d %d" (int_of_nat s) (int_of_nat e) (int_of_nat k) (int_of_meta m)) ts))))
     | [src; toks; chars; canon; meta] ->
         let src = text_of_line src in
         let toks = toks_of (ints_of_line toks) in
